@@ -47,6 +47,8 @@ pub enum FileM {
 #[derive(Clone, Debug)]
 pub struct Layout {
     pub files: Vec<FileM>,
+    /// index of a `.rs` file that is a symbolic link to a file kept outside the project path
+    pub linked: Option<usize>,
 }
 
 pub const RETS: &[fn() -> Option<Ty>] = &[
@@ -97,10 +99,12 @@ pub fn render_item(it: &ItemM) -> String {
 
 pub fn render_layout(l: &Layout) -> Vec<(String, String)> {
     let mut out = vec![];
-    for f in &l.files {
+    for (fi, f) in l.files.iter().enumerate() {
         match f {
             FileM::Rust { path, items } => {
-                let mut s = String::from(PRELUDE);
+                // `tool::write_project` turns a file that starts with this line into a symbolic link
+                let mut s = String::from(if l.linked == Some(fi) { crate::tool::SYMLINK_MARK } else { "" });
+                s.push_str(PRELUDE);
                 for it in items {
                     s.push_str(&render_item(it));
                 }
@@ -247,7 +251,16 @@ pub fn random_layout(t: &mut Tape) -> Layout {
         let path = if dir.is_empty() { format!("broken{}.rs", b) } else { format!("{}/broken{}.rs", dir, b) };
         files.push(FileM::Broken { path, text: t.choose(BROKEN_TEXTS).to_string() });
     }
-    Layout { files }
+    // later addition, drawn last (an exhausted tape yields 0 = no link): one of the scanned `.rs`
+    // files is a symbolic link to a file outside the project path (a module shared between crates)
+    let mut linked = None;
+    if t.pick(4) == 3 {
+        let candidates: Vec<usize> = files.iter().enumerate().filter(|(_, f)| matches!(f, FileM::Rust { path, items } if !excluded(path) && items.iter().any(|i| matches!(i, ItemM::Command { .. })))).map(|(i, _)| i).collect();
+        if !candidates.is_empty() {
+            linked = Some(candidates[t.pick(candidates.len())]);
+        }
+    }
+    Layout { files, linked }
 }
 
 fn layout_json(l: &Layout) -> Value {
@@ -284,6 +297,9 @@ pub fn observe_commands(commands_ts: &str) -> Result<Vec<(String, String, crate:
 pub fn check_layout(l: &Layout, mode: &str, via_cli: bool, stats: &mut Stats) -> Vec<Failure> {
     let files = render_layout(l);
     let expected = expected_commands(l);
+    if l.linked.is_some() {
+        stats.label("has=symlinked_rs_file");
+    }
     let n_rust = l.files.iter().filter(|f| matches!(f, FileM::Rust { .. })).count();
     let n_decoys = l.files.iter().map(|f| if let FileM::Rust { items, .. } = f { items.iter().filter(|i| !matches!(i, ItemM::Command { .. } | ItemM::Struct { .. })).count() } else { 1 }).sum::<usize>();
     let has_broken = l.files.iter().any(|f| matches!(f, FileM::Broken { .. }));
@@ -407,7 +423,7 @@ fn random_case(t: &mut Tape) -> (Layout, &'static str) {
 }
 
 pub fn run(ctx: &Ctx) {
-    ctx.set_rule("directory layouts of 1-6 .rs files at depth 0-4, decoy files below target/ and .git/ directories at the top level and nested, non-.rs files, 0-2 unparsable .rs files; items: commands with 7 attribute spellings (tauri::command / command, bare and with arguments), extra attributes before/after, 4 visibilities, async/sync, 10 shallow return types; decoys: helper fns with 10 look-alike attributes, #[tauri::command] inside impl blocks and inline modules; both modes; evaluation = one generation run (plus the metamorphic re-run without the unparsable files); non-trivial = >=2 .rs files, >=1 command, >=1 decoy; distinct by (rendered layout, mode)");
+    ctx.set_rule("directory layouts of 1-6 .rs files at depth 0-4, decoy files below target/ and .git/ directories at the top level and nested, non-.rs files, 0-2 unparsable .rs files, one layout in four with a .rs file that is a symbolic link to a regular file outside the project path; items: commands with 7 attribute spellings (tauri::command / command, bare and with arguments), extra attributes before/after, 4 visibilities, async/sync, 10 shallow return types; decoys: helper fns with 10 look-alike attributes, #[tauri::command] inside impl blocks and inline modules; both modes; evaluation = one generation run (plus the metamorphic re-run without the unparsable files); non-trivial = >=2 .rs files, >=1 command, >=1 decoy; distinct by (rendered layout, mode)");
     ctx.set_exhaustive(false);
     ctx.assume("expected command set is computed from the layout model; return types are shallow so that C05's classes do not interfere");
     let cases = ctx.tier.pick(1200, 200000);
@@ -431,7 +447,7 @@ pub fn replay(check: &str, input: &Value, stats: &mut Stats) -> Option<Vec<Failu
             .filter_map(|n| n.as_str())
             .map(|n| ItemM::Command { name: n.to_string(), attr: "#[tauri::command]".into(), extra_before: vec![], extra_after: vec![], vis: "pub ".into(), is_async: false, ret: Some(Ty::Prim("i32")), with_param: true })
             .collect();
-        let l = Layout { files: vec![FileM::Rust { path: "src/lib.rs".into(), items }] };
+        let l = Layout { files: vec![FileM::Rust { path: "src/lib.rs".into(), items }], linked: None };
         let mode = if input["mode"].as_str() == Some("zod") { "zod" } else { "none" };
         return Some(check_layout(&l, mode, false, stats));
     }
